@@ -102,6 +102,26 @@ int main (int argc, char** argv)
   fn ("ci_complex", [] { cd z = complex_in ("z"); out ("r", ci (z)); });
   fn ("ci_real", [] { double r = in ("r"); out ("r", ci (r)); });
 
+  // mixed element types: conversion between element types (real -> complex, single -> double) and the mixed sums,
+  // differences and scalar multiples that go through it
+  typedef Quaternion<float,Hermitian> FH; typedef Quaternion<float,Unitary> FU;
+  fn ("promote_QH_BH", [] { QH a = qmk<QH>::in ("a"); BH b (a); law ("convert(biquaternion(q)) = convert(q)", convert (b), convert (a)); });
+  fn ("promote_QU_BU", [] { QU a = qmk<QU>::in ("a"); BU b (a); law ("convert(biquaternion(q)) = convert(q)", convert (b), convert (a)); });
+  fn ("mixed_add_QH_BH", [] { QH a = qmk<QH>::in ("a"); BH b = qmk<BH>::in ("b"); law ("convert(q+b) = convert(q)+convert(b)", convert (a + b), convert (a) + convert (b)); });
+  fn ("mixed_add_BH_QH", [] { QH a = qmk<QH>::in ("a"); BH b = qmk<BH>::in ("b"); law ("convert(b+q) = convert(b)+convert(q)", convert (b + a), convert (b) + convert (a)); });
+  fn ("mixed_sub_QU_BU", [] { QU a = qmk<QU>::in ("a"); BU b = qmk<BU>::in ("b"); law ("convert(q-b) = convert(q)-convert(b)", convert (a - b), convert (a) - convert (b)); });
+  fn ("mixed_sub_BU_QU", [] { QU a = qmk<QU>::in ("a"); BU b = qmk<BU>::in ("b"); law ("convert(b-q) = convert(b)-convert(q)", convert (b - a), convert (b) - convert (a)); });
+  fn ("mixed_add_FH_QH", [] { QH a = qmk<QH>::in ("a"), b = qmk<QH>::in ("b"); FH af (float (a.s0), float (a.s1), float (a.s2), float (a.s3));
+    QH g = af + b; QH h = b + af; out_quat ("g", g); out_quat ("h", h);
+    QH w (double (af.s0) + b.s0, double (af.s1) + b.s1, double (af.s2) + b.s2, double (af.s3) + b.s3); out_quat ("w", w); out_quat ("w2", w);
+    if (!symbolic) { expect ("single + double quaternion, component 0", g.s0, w.s0, 1e-6); expect ("component 1", g.s1, w.s1, 1e-6); expect ("component 2", g.s2, w.s2, 1e-6); expect ("component 3", g.s3, w.s3, 1e-6);
+                     expect ("double + single quaternion, component 2", h.s2, w.s2, 1e-6); expect ("double + single quaternion, component 3", h.s3, w.s3, 1e-6); } });
+  fn ("mixed_scale_FU_double", [] { QU a = qmk<QU>::in ("a"); double r = in ("r", 0.5, 2); FU af (float (a.s0), float (a.s1), float (a.s2), float (a.s3));
+    QU g = r * af; QU h = af * r; QU k = af / r; out_quat ("g", g); out_quat ("h", h); out_quat ("k", k);
+    QU w (r * double (af.s0), r * double (af.s1), r * double (af.s2), r * double (af.s3)); QU wk (double (af.s0) / r, double (af.s1) / r, double (af.s2) / r, double (af.s3) / r);
+    out_quat ("w", w); out_quat ("w2", w); out_quat ("wk", wk);
+    // (the library evaluates these in single precision: the comparison allows for it)
+    if (!symbolic) { expect ("double * single quaternion, component 2", g.s2, w.s2, 1e-6); expect ("component 3", g.s3, w.s3, 1e-6); expect ("single quaternion * double, component 3", h.s3, w.s3, 1e-6); expect ("single quaternion / double, component 3", k.s3, wk.s3, 1e-6); } });
 #ifndef SYMX_SYMBOLIC
   // all magnitudes: scaling the operands by a power of two (exact in binary floating point) must scale every
   // result by the corresponding power, bit for bit, as long as nothing over- or underflows: conversion (degree 1),
